@@ -121,20 +121,24 @@ class SymT(torch.Tensor):
         return out
 
 
-def sym_pinverse(g):
-    gt = g.transpose(-1, -2)
-    G = torch.bmm(gt, g)
+def _inv_small(G):
     m = G.shape[-1]
     if m == 1:
-        Ginv = 1 / G
-    elif m == 2:
+        return 1 / G
+    if m == 2:
         a, b, c, d = G[:, 0, 0], G[:, 0, 1], G[:, 1, 0], G[:, 1, 1]
         det = a * d - b * c
-        Ginv = torch.stack([torch.stack([d, -b], dim=-1), torch.stack([-c, a], dim=-1)], dim=-2) / det.unsqueeze(-1).unsqueeze(-1)
-    else:
-        raise Unsupported('pinverse for noise size > 2')
+        return torch.stack([torch.stack([d, -b], dim=-1), torch.stack([-c, a], dim=-1)], dim=-2) / det.unsqueeze(-1).unsqueeze(-1)
+    raise Unsupported('pinverse for a Gram matrix larger than 2x2')
+
+
+def sym_pinverse(g):
+    """closed form of the Moore-Penrose inverse for full rank: (g^T g)^-1 g^T (tall / square) or g^T (g g^T)^-1 (wide)"""
+    gt = g.transpose(-1, -2)
     PINV_USED.append(tuple(g.shape))
-    return torch.bmm(Ginv, gt)
+    if g.shape[-2] >= g.shape[-1]:
+        return torch.bmm(_inv_small(torch.bmm(gt, g)), gt)
+    return torch.bmm(gt, _inv_small(torch.bmm(g, gt)))
 
 
 PINV_USED = []
